@@ -262,6 +262,9 @@ func UnmarshalYAML(bs []byte, v interface{}) error {
 }
 
 func Unmarshal(bs []byte, v interface{}) error {
+	if len(bs) == 0 {
+		return UnknownSyntax
+	}
 	if bs[0] == '{' {
 		return json.Unmarshal(bs, v)
 	}
@@ -364,6 +367,9 @@ func GetHTTPRequest(ctx *core.Context, r *http.Request) (map[string]interface{},
 				return nil, err
 			}
 
+			if len(js) == 0 {
+				return nil, errors.New("empty request body")
+			}
 			if js[0] == '{' {
 				// If the body looks like JSON, treat it as JSON.
 				if err = json.Unmarshal(js, &m); err != nil {
